@@ -26,6 +26,11 @@ Proved here, for EVERY format string, event, and `str`/`repr`/`ascii`/`format` o
     `hooks_flat_and_json_equal_original_partial` — the same property when evaluating a field value runs the flatten
     machinery again (model `TwistedModel/Log/FlatReent.lean`: every `KeyFlattener()` is an allocation in an explicit
     heap; lemmas in `TwistedProps/C56/Reent.lean`).
+  * histories (added after the white-box mutation audit, harness/mutants/C56): `flattenEvent_idem` — an event whose
+    `log_flattened` already lets the format string format is left exactly as it is, no field is looked up again;
+    `any_history_equals_original_partial` — after ANY sequence of `flattenEvent` / `eventAsJSON`+`eventFromJSON` steps
+    (flattened twice, flattened then serialized, serialized twice by a forwarding observer, loaded and flattened
+    again, …) every step succeeds and the event formats to the original text.
 Missing for full strength: fields with a format spec (the code drops the spec; see DESIGN §7.8).
 
 Proof: one induction over the parsed items that runs the original formatter, the `flattenEvent`
@@ -572,5 +577,266 @@ example : ((flattenEventW (opsLevel pyOps 1) evHook ⟨[]⟩).2.cells.length,
     count ((flattenEventW (opsLevel pyOps 1) evHook ⟨[]⟩).2.get 0) "host!s:".toList,
     count ((flattenEventW (opsLevel pyOps 1) evHook ⟨[]⟩).2.get 1) "disk!s:".toList) = (3, 2, 2) := by
   decide +kernel
+
+/-! ### histories: an event that was flattened / went through JSON is flattened / serialized again -/
+
+/-- every replacement field's conversion is absent or one of `s`, `r`, `a` (what a successful original
+formatting guarantees): `flatFormat`'s `conversion or "s"` and `flattenEvent`'s key conversion coincide -/
+def ConvOK (items : List Item) : Prop :=
+  ∀ it ∈ items, ∀ f, it.field = some f → convOr f.conv = [flatConv f.conv]
+
+theorem okc_flatConv (conv : Option Char) : okc (flatConv conv) := by
+  cases conv with
+  | none => simp [flatConv, okc]
+  | some c =>
+    by_cases hr : c = 'r'
+    · simp [flatConv, okc, hr]
+    · by_cases ha : c = 'a'
+      · simp [flatConv, okc, ha]
+      · simp [flatConv, okc, hr, ha]
+
+theorem convOK_of_orig (O : Ops) (ev : Dict) (hfmt : ∀ v, O.fmt v [] = .ok (strOf O v)) (ok : Bool)
+    (items : List Item) :
+    ∀ out, SpecFree items → fmtItems O ev (vformat O ev 2) items ok = .ok out → ConvOK items := by
+  induction items with
+  | nil => intro _ _ _ it hm; simp at hm
+  | cons it rest ih =>
+    intro out hsf h
+    rw [fmtItems_cons] at h
+    obtain ⟨t, ht, h⟩ := bind_ok _ _ _ h
+    obtain ⟨r, hr, _⟩ := bind_ok _ _ _ h
+    have hsf' : SpecFree rest := fun it' hm => hsf it' (by simp [hm])
+    have hrest := ih r hsf' hr
+    intro it' hm f hf
+    simp only [List.mem_cons] at hm
+    rcases hm with rfl | hm
+    · have hspec : f.spec = [] := hsf it' (by simp) f hf
+      rw [hf] at ht
+      simp only [origField] at ht
+      rw [hspec, expand_nil] at ht
+      obtain ⟨v, _, ht⟩ := bind_ok _ _ _ ht
+      have ht' : (convert O v f.conv).bind (fun cv => O.fmt cv []) = .ok t := ht
+      exact (orig_field O hfmt v f.conv t ht').2.1
+    · exact hrest it' hm f hf
+
+/-- flattening over a fields dict from which the format string already formats changes nothing: every
+flattened key is found, so no field is looked up in the event again (whatever the event's values are now) -/
+theorem flattenLoop_noop (O : Ops) (ev2 fs : Dict) (ok : Bool) (items : List Item) :
+    ∀ (csF csL : Counts) (out : Text), SpecFree items → ConvOK items → CountsAgree csF csL →
+      flatLoop O fs items ok csL = .ok out → flattenLoop O ev2 items ok csF fs = .ok fs := by
+  induction items with
+  | nil =>
+    intro csF csL out _ _ _ h
+    cases ok <;> simp [flatLoop, flattenLoop] at h ⊢
+  | cons it rest ih =>
+    intro csF csL out hsf hcv hca h
+    have hsf' : SpecFree rest := fun it' hm => hsf it' (by simp [hm])
+    have hcv' : ConvOK rest := fun it' hm => hcv it' (by simp [hm])
+    cases hf : it.field with
+    | none =>
+      rw [flatLoop_none _ _ _ _ _ _ hf] at h
+      obtain ⟨r, hr, _⟩ := bind_ok _ _ _ h
+      rw [flattenLoop_none _ _ _ _ _ _ _ hf]
+      exact ih csF csL r hsf' hcv' hca hr
+    | some f =>
+      have hspec : f.spec = [] := hsf it (by simp) f hf
+      have hconvOr : convOr f.conv = [flatConv f.conv] := hcv it (by simp) f hf
+      have hokc : okc (flatConv f.conv) := okc_flatConv f.conv
+      have hKL : (flatKey csL f.name [] (convOr f.conv)).1 = (flatKey csF f.name [] [flatConv f.conv]).1 := by
+        rw [hconvOr, flatKey_fst, flatKey_fst, hca f.name _ hokc]
+      have hca' : CountsAgree (flatKey (flatKey csF f.name [] [flatConv f.conv]).2 f.name [] []).2
+          (flatKey csL f.name [] (convOr f.conv)).2 := by
+        intro name' c' hc'
+        rw [hconvOr, flatKey_snd, flatKey_snd, flatKey_snd]
+        simp only [count_dictSet]
+        have hne : baseKey f.name [] [] ≠ baseKey name' [] [c'] := by
+          rw [baseKey_eq_mk, baseKey_eq_mk]
+          intro e
+          have := mk_inj _ _ _ _ _ _ (by simp) (by simp) (by simp) (okc_nobang c' hc') e
+          simp at this
+        simp only [hne, if_false]
+        rw [hca f.name _ hokc, hca name' c' hc']
+      cases hl : lookup fs (flatKey csL f.name [] (convOr f.conv)).1 with
+      | none => simp [flatLoop, hf, hspec, hl] at h
+      | some v =>
+        rw [flatLoop_some O fs it rest ok csL f hf hspec v hl] at h
+        obtain ⟨r, hr, _⟩ := bind_ok _ _ _ h
+        rw [flattenLoop_some O ev2 it rest ok csF fs f hf hspec, ← hKL, hl]
+        simpa using ih _ _ r hsf' hcv' hca' hr
+
+theorem flattenEvent_flattened (O : Ops) (ev fs fs' : Dict) (s : Text)
+    (hs : lookup ev kFormat = some (.text s)) (hf : lookup ev kFlattened = some (.dict fs))
+    (hl : flattenLoop O ev (parse s).1 (parse s).2 [] fs = .ok fs') :
+    flattenEvent O ev = .ok (if fs'.isEmpty then ev else dictSet ev kFlattened (.dict fs')) := by
+  simp only [flattenEvent, hs, hf, Except.bind, hl]
+  split <;> rfl
+
+theorem dictSet_self {α : Type} (d : List (Text × α)) (k : Text) (v : α) (h : lookup d k = some v) :
+    dictSet d k v = d := by
+  induction d with
+  | nil => simp [lookup] at h
+  | cons p d ih =>
+    obtain ⟨k', v'⟩ := p
+    by_cases hk : k' = k
+    · subst hk
+      simp [lookup] at h
+      simp [dictSet, h]
+    · simp [lookup, hk] at h
+      simp [dictSet, hk, ih h]
+
+theorem jsonRTKvs_ne_nil (d : Dict) (h : d ≠ []) : jsonRTKvs d ≠ [] := by
+  cases d with
+  | nil => exact absurd rfl h
+  | cons p d => obtain ⟨k, v⟩ := p; simp [jsonRTKvs]
+
+theorem presT_refl (fs : Dict) : PresT fs fs := fun _ _ _ _ _ h => h
+
+theorem presT_json (fs fsG : Dict) (h : PresT (jsonRTKvs fs) fsG) : PresT fs fsG := by
+  intro k name c t hk hl
+  exact h k name c t hk (by rw [lookup_jsonRTKvs, hl]; simp [jsonRT_text])
+
+/-- **idempotence**: an event whose `log_flattened` already lets the format string format is left exactly as
+it is by `flattenEvent` — whatever its values have become (after JSON they are no longer the objects) -/
+theorem flattenEvent_idem (O : Ops) (e fsF : Dict) (s out : Text)
+    (hs : lookup e kFormat = some (.text s)) (hf : lookup e kFlattened = some (.dict fsF)) (hne : fsF ≠ [])
+    (hsf : SpecFree (parse s).1) (hcv : ConvOK (parse s).1)
+    (hfl : flatLoop O fsF (parse s).1 (parse s).2 [] = .ok out) :
+    flattenEvent O e = .ok e := by
+  have hl := flattenLoop_noop O e fsF (parse s).2 (parse s).1 [] [] out hsf hcv (fun _ _ _ => rfl) hfl
+  rw [flattenEvent_flattened O e fsF fsF s hs hf hl]
+  have : fsF.isEmpty = false := by cases fsF with
+    | nil => exact absurd rfl hne
+    | cons _ _ => rfl
+  simp only [this, Bool.false_eq_true, if_false]
+  rw [dictSet_self e kFlattened _ hf]
+
+/-- one step of an event's later life: it is flattened (again), or serialized to JSON and loaded back -/
+inductive Step where
+  | flatten | json
+
+def step (O : Ops) : Step → Dict → Except Err Dict
+  | .flatten, e => flattenEvent O e
+  | .json, e => jsonRoundTrip O e
+
+def runSteps (O : Ops) : List Step → Dict → Except Err Dict
+  | [], e => .ok e
+  | st :: r, e => (step O st e).bind (runSteps O r)
+
+/-- unflattened, formats to `out` (the original event is such an event) -/
+def GoodA (O : Ops) (s out : Text) (e : Dict) : Prop :=
+  lookup e kFormat = some (.text s) ∧ lookup e kFlattened = none ∧ formatEvent O e = .ok out
+
+/-- flattened, and every fields dict that keeps the flattened texts formats to `out` -/
+def GoodB (O : Ops) (s out : Text) (e : Dict) : Prop :=
+  lookup e kFormat = some (.text s) ∧ ∃ fsF, lookup e kFlattened = some (.dict fsF) ∧ fsF ≠ [] ∧
+    ∀ fsG, PresT fsF fsG → flatLoop O fsG (parse s).1 (parse s).2 [] = .ok out
+
+theorem goodB_formats (O : Ops) (s out : Text) (e : Dict) (h : GoodB O s out e) : formatEvent O e = .ok out := by
+  obtain ⟨hs, fsF, hf, _, hall⟩ := h
+  rw [formatEvent_flattened O e fsF s hs hf]
+  exact hall fsF (presT_refl fsF)
+
+theorem good_step (O : Ops) (hfmt : ∀ v, O.fmt v [] = .ok (strOf O v)) (s out : Text)
+    (hsf : specFree (parse s).1 = true) (hcv : ConvOK (parse s).1) (st : Step) (e : Dict)
+    (h : GoodA O s out e ∨ GoodB O s out e) :
+    ∃ e', step O st e = .ok e' ∧ (GoodA O s out e' ∨ GoodB O s out e') := by
+  rcases h with ⟨hs, hnf, horig⟩ | hB
+  · -- an unflattened event: the lockstep induction
+    have horig0 := horig
+    rw [formatEvent_unflattened O e s hs hnf] at horig
+    obtain ⟨fs', h1, _, _, _, h5, h6⟩ :=
+      lockstep O e hfmt _ _ [] [] [] out (specFree_spec _ hsf) (fun _ _ _ => rfl) (inv_nil O e) horig
+    have hfe := flattenEvent_unflattened O e fs' s hs hnf h1
+    by_cases he : fs'.isEmpty = true
+    · have hnil : fs' = [] := by simpa using he
+      simp only [he, if_true] at hfe
+      cases st with
+      | flatten => exact ⟨e, hfe, Or.inl ⟨hs, hnf, horig0⟩⟩
+      | json =>
+        refine ⟨jsonRTKvs e, by simp only [step, jsonRoundTrip, hfe, Except.bind], Or.inl ⟨?_, ?_, ?_⟩⟩
+        · rw [lookup_jsonRTKvs, hs]; simp [jsonRT_text]
+        · rw [lookup_jsonRTKvs, hnf]; rfl
+        · rw [formatEvent_unflattened O _ s (by rw [lookup_jsonRTKvs, hs]; simp [jsonRT_text])
+            (by rw [lookup_jsonRTKvs, hnf]; rfl)]
+          rw [← horig]
+          exact fmtItems_noFields O _ _ _ _ _ _ (fun hex => h5 hex hnil)
+    · simp only [he, Bool.false_eq_true, if_false] at hfe
+      have hne : fs' ≠ [] := by intro e0; rw [e0] at he; simp at he
+      cases st with
+      | flatten =>
+        refine ⟨_, hfe, Or.inr ⟨?_, fs', ?_, hne, h6⟩⟩
+        · rw [lookup_dictSet]; simp [kFlattened_ne_kFormat, hs]
+        · rw [lookup_dictSet]; simp
+      | json =>
+        refine ⟨jsonRTKvs (dictSet e kFlattened (.dict fs')),
+          by simp only [step, jsonRoundTrip, hfe, Except.bind], Or.inr ⟨?_, jsonRTKvs fs', ?_, jsonRTKvs_ne_nil _ hne, ?_⟩⟩
+        · rw [lookup_jsonRTKvs, lookup_dictSet]; simp [kFlattened_ne_kFormat, hs, jsonRT_text]
+        · rw [lookup_jsonRTKvs, lookup_dictSet]; simp [jsonRT]
+        · intro fsG hp
+          exact h6 fsG (presT_json fs' fsG hp)
+  · -- an already flattened event: nothing is looked up again
+    obtain ⟨hs, fsF, hf, hne, hall⟩ := hB
+    have hidem := flattenEvent_idem O e fsF s out hs hf hne (specFree_spec _ hsf) hcv (hall fsF (presT_refl fsF))
+    cases st with
+    | flatten => exact ⟨e, hidem, Or.inr ⟨hs, fsF, hf, hne, hall⟩⟩
+    | json =>
+      refine ⟨jsonRTKvs e, by simp only [step, jsonRoundTrip, hidem, Except.bind],
+        Or.inr ⟨?_, jsonRTKvs fsF, ?_, jsonRTKvs_ne_nil _ hne, ?_⟩⟩
+      · rw [lookup_jsonRTKvs, hs]; simp [jsonRT_text]
+      · rw [lookup_jsonRTKvs, hf]; simp [jsonRT]
+      · intro fsG hp
+        exact hall fsG (presT_json fsF fsG hp)
+
+/-- **C56 over histories (partial: fields without a format spec).**  Same hypotheses as
+`flat_equals_original_partial`.  Whatever sequence of `flattenEvent` and `eventAsJSON`/`eventFromJSON` steps the
+event goes through afterwards (flattened twice; flattened, then serialized; serialized, loaded and serialized again
+by a forwarding observer; loaded and flattened again; …), every step succeeds and the event at the end formats to
+the text the original event formats to.  The two theorems above are the histories `[flatten]` and `[json]`. -/
+theorem any_history_equals_original_partial (O : Ops) (hfmt : ∀ v, O.fmt v [] = .ok (strOf O v))
+    (ev : Dict) (s out : Text)
+    (hs : lookup ev kFormat = some (.text s)) (hnf : lookup ev kFlattened = none)
+    (hsf : specFree (parse s).1 = true)
+    (horig : formatEvent O ev = .ok out) (steps : List Step) :
+    ∃ e, runSteps O steps ev = .ok e ∧ formatEvent O e = .ok out := by
+  have hcv : ConvOK (parse s).1 := by
+    have h := horig
+    rw [formatEvent_unflattened O ev s hs hnf] at h
+    exact convOK_of_orig O ev hfmt _ _ out (specFree_spec _ hsf) h
+  have gen : ∀ (steps : List Step) (e : Dict), (GoodA O s out e ∨ GoodB O s out e) →
+      ∃ e', runSteps O steps e = .ok e' ∧ formatEvent O e' = .ok out := by
+    intro steps
+    induction steps with
+    | nil =>
+      intro e h
+      refine ⟨e, rfl, ?_⟩
+      rcases h with h | h
+      · exact h.2.2
+      · exact goodB_formats O s out e h
+    | cons st r ih =>
+      intro e h
+      obtain ⟨e1, h1, hg⟩ := good_step O hfmt s out hsf hcv st e h
+      obtain ⟨e2, h2, hf2⟩ := ih e1 hg
+      exact ⟨e2, by simp only [runSteps, h1, Except.bind]; exact h2, hf2⟩
+  exact gen steps ev (Or.inl ⟨hs, hnf, horig⟩)
+
+/-- the histories the correspondence harness observes, as instances -/
+theorem observed_histories_equal_original_partial (O : Ops) (hfmt : ∀ v, O.fmt v [] = .ok (strOf O v))
+    (ev : Dict) (s out : Text)
+    (hs : lookup ev kFormat = some (.text s)) (hnf : lookup ev kFlattened = none)
+    (hsf : specFree (parse s).1 = true)
+    (horig : formatEvent O ev = .ok out) :
+    (∃ e, runSteps O [.flatten, .flatten] ev = .ok e ∧ formatEvent O e = .ok out) ∧
+    (∃ e, runSteps O [.flatten, .flatten, .json] ev = .ok e ∧ formatEvent O e = .ok out) ∧
+    (∃ e, runSteps O [.json, .json] ev = .ok e ∧ formatEvent O e = .ok out) ∧
+    (∃ e, runSteps O [.json, .flatten] ev = .ok e ∧ formatEvent O e = .ok out) :=
+  ⟨any_history_equals_original_partial O hfmt ev s out hs hnf hsf horig _,
+   any_history_equals_original_partial O hfmt ev s out hs hnf hsf horig _,
+   any_history_equals_original_partial O hfmt ev s out hs hnf hsf horig _,
+   any_history_equals_original_partial O hfmt ev s out hs hnf hsf horig _⟩
+
+/-- non-vacuity: the example event of this file through the history json → flatten → json → json -/
+example : ∃ e, runSteps pyOps [.json, .flatten, .json, .json] evEx = .ok e ∧ formatEvent pyOps e = .ok outEx :=
+  any_history_equals_original_partial pyOps pyOps_fmt_nil evEx fmtEx outEx (by simp [evEx, lookup]) (by decide +kernel)
+    (by decide +kernel) (ok_of_isOkText _ _ evEx_formats) _
 
 end TwistedProps.C56
